@@ -38,6 +38,7 @@ PROPS = {
         "expected_theorems": [
             "C12_cutoff_never_shrinks", "C12_headroom", "C12_run", "C12_run_ge_initial", "C12_ising_timestep_rule",
             "C12_ising_single_diagonal_rule", "C12_generic_timestep_rule", "C12_count_le_cutoff",
+            "C12_source_rules_keep_headroom", "C12_source_rules_are_the_model_rule", "C12_source_rule_sites_found",
         ],
         "assumptions": [
             "a 'run' is a sequence of timestep / single_* calls; an explicit user call of set_cutoff may lower the reported cutoff and is outside the property",
